@@ -2,9 +2,11 @@
 import coqlit as L
 import gen as G
 import conv
+import syntax as SX
 from props.C01 import nfa_lit
 
-COQ_IMPORTS = ['Model.DFA', 'Model.NFA', 'Judge.C03_judge']
+COQ_IMPORTS = ['Model.DFA', 'Model.NFA', 'Model.Tokens', 'Model.Naming', 'Judge.Common', 'Judge.C03_judge', 'Judge.Extra_judge']
+EXTRA_JUDGES = ['Extra']
 RULE = ('all 2-state epsilon-NFAs over one symbol (1024; thorough: a sample of 2 symbols), random epsilon-NFAs <=6 states x <=3 symbols with epsilon cycles, dead ends, empty/full F, empty alphabet, '
         'under 2 (quick) / 8 (thorough) PYTHONHASHSEED values; nfa_to_dfa; each DFA state name is read back as a set of NFA states. Relation: total valid DFA, same alphabet, language-equal to the NFA '
         '(exact: verified product-reachability test against the model subset automaton), initial state = epsilon closure of the NFA initial state, every state reachable; structural layer: identical subsets and transitions. '
@@ -90,7 +92,12 @@ def _encode1(n, d, unchanged):
     sig = {a: f(a) if a in n['Sigma'] else 90 + i for i, a in enumerate(d['Sigma'])}
     delta = L.lst(L.pair(L.pair(S(q), L.nat(sig[a])), S(t)) for (q, a, t) in d['delta'])
     dl = '(mkDFA %s %s %s %s %s)' % (L.lst(S(q) for q in d['Q']), L.nats(sig[a] for a in d['Sigma']), delta, S(d['q0']), L.lst(S(q) for q in d['F']))
-    return 'judge_C03 %s (Some %s) %s' % (lit, dl, L.boolean(o['unchanged']))
+    main = 'judge_C03 %s (Some %s) %s' % (lit, dl, L.boolean(o['unchanged']))
+    # the state names themselves (print_state_set, Model/Naming.v): informational layer
+    if all(SX.codes(q) is not None for q in list(n['Q']) + list(d['Q'])) and len(n['Q']) <= 8:
+        table = L.lst(L.pair(L.nat(st(q)), SX.tok(q)) for q in n['Q'])
+        return 'worst_code [%s; judge_subset_names %s %s %s %s]' % (main, table, lit, L.lst(SX.tok(q) for q in d['Q']), SX.tok(d['q0']))
+    return main
 
 
 def explain(c):
